@@ -1,7 +1,7 @@
 #!/bin/bash
 # verify_seed.sh <worktree> : confirm a seeded change (suite passes with it; demo fails with it, passes without)
 set -u
-W=$1
+W=$1; TAG=$(basename $1)
 export GOFLAGS=-mod=mod GOPROXY=off GOSUMDB=off GOTOOLCHAIN=local
 cd $W || exit 2
 demo=$(git status --porcelain | grep '^??' | awk '{print $2}' | grep '_test.go$' | head -1)
@@ -10,16 +10,16 @@ pkg=./$(dirname $demo)
 echo "demo=$demo pkg=$pkg"
 git diff --stat | tail -2
 # 1. demo with change
-go test -vet=off -count=1 -timeout 10m -run 'Seed' $pkg > /tmp/vs_with.log 2>&1; rc_with=$?
+go test -vet=off -count=1 -timeout 10m -run 'Seed' $pkg > /tmp/vs_${TAG}_with.log 2>&1; rc_with=$?
 # 2. suite with change (demo moved aside)
-mv $demo /tmp/vs_demo.go.keep
-go test -vet=off -count=1 -timeout 20m . ./datafile ./index ./fio ./utils ./datatype > /tmp/vs_suite.log 2>&1; rc_suite=$?
-mv /tmp/vs_demo.go.keep $demo
+mv $demo /tmp/vs_${TAG}_demo.go.keep
+go test -vet=off -count=1 -timeout 20m . ./datafile ./index ./fio ./utils ./datatype > /tmp/vs_${TAG}_suite.log 2>&1; rc_suite=$?
+mv /tmp/vs_${TAG}_demo.go.keep $demo
 # 3. demo without change
-git diff > /tmp/vs_patch.diff
+git diff > /tmp/vs_${TAG}_patch.diff
 git checkout -- . 
-go test -vet=off -count=1 -timeout 10m -run 'Seed' $pkg > /tmp/vs_without.log 2>&1; rc_without=$?
-git apply /tmp/vs_patch.diff
+go test -vet=off -count=1 -timeout 10m -run 'Seed' $pkg > /tmp/vs_${TAG}_without.log 2>&1; rc_without=$?
+git apply /tmp/vs_${TAG}_patch.diff
 echo "demo-with-change rc=$rc_with (want !=0); suite-with-change rc=$rc_suite (want 0); demo-without-change rc=$rc_without (want 0)"
-tail -3 /tmp/vs_with.log
-if [ $rc_with -ne 0 ] && [ $rc_suite -eq 0 ] && [ $rc_without -eq 0 ]; then echo CONFIRMED; exit 0; else echo NOT-CONFIRMED; tail -5 /tmp/vs_suite.log /tmp/vs_without.log; exit 1; fi
+tail -3 /tmp/vs_${TAG}_with.log
+if [ $rc_with -ne 0 ] && [ $rc_suite -eq 0 ] && [ $rc_without -eq 0 ]; then echo CONFIRMED; exit 0; else echo NOT-CONFIRMED; tail -5 /tmp/vs_${TAG}_suite.log /tmp/vs_${TAG}_without.log; exit 1; fi
